@@ -2,20 +2,21 @@ package layerb
 
 import (
 	"fmt"
+	"math/rand"
 	"strings"
 )
 
 // customLeaf describes a (S,T) pair served by a custom function.
 type customLeaf struct {
-	Name      string
-	Shape     shape
-	ConvLines []string
-	Custom    map[string]string // pair -> fn
-	CtxParam  string            // extra method parameter(s), e.g. "ctxA PFXCtx"
-	Aux       map[string]string
-	Imports   []string
-	Fallible  bool
-	OnlyStruct bool // needs output format struct
+	Name        string
+	Shape       shape
+	ConvLines   []string
+	Custom      map[string]string // pair -> fn
+	CtxParam    string            // extra method parameter(s), e.g. "ctxA PFXCtx"
+	Aux         map[string]string
+	Imports     []string
+	Fallible    bool
+	OnlyStruct  bool // needs output format struct
 	MethodLines []string
 	SkipCopy    bool
 }
@@ -56,26 +57,26 @@ func customLeaves(fallible bool) []customLeaf {
 			CtxParam:  "ctxA PFXCtx, ctxB PFXCty",
 		},
 		{
-			Name:      "extend_conv",
-			Shape:     shape{Src: "PFXA", Tgt: "PFXB", Name: "extconv", Decls: []string{base + fmt.Sprintf("func PFXExt(c CNAME, a PFXA) %s { %s }", errRes("PFXB"), ret("0"))}},
-			ConvLines: []string{"extend PFXExt"},
-			Custom:    map[string]string{"PFXA→PFXB": "PFXExt"},
+			Name:       "extend_conv",
+			Shape:      shape{Src: "PFXA", Tgt: "PFXB", Name: "extconv", Decls: []string{base + fmt.Sprintf("func PFXExt(c CNAME, a PFXA) %s { %s }", errRes("PFXB"), ret("0"))}},
+			ConvLines:  []string{"extend PFXExt"},
+			Custom:     map[string]string{"PFXA→PFXB": "PFXExt"},
 			OnlyStruct: true,
 		},
 		{
 			// the converter parameter is passed where it is declared, not necessarily first
-			Name:      "extend_conv_last",
-			Shape:     shape{Src: "PFXA", Tgt: "PFXB", Name: "extconvlast", Decls: []string{base + fmt.Sprintf("func PFXExt(a PFXA, c CNAME) %s { %s }", errRes("PFXB"), ret("0"))}},
-			ConvLines: []string{"extend PFXExt"},
-			Custom:    map[string]string{"PFXA→PFXB": "PFXExt"},
+			Name:       "extend_conv_last",
+			Shape:      shape{Src: "PFXA", Tgt: "PFXB", Name: "extconvlast", Decls: []string{base + fmt.Sprintf("func PFXExt(a PFXA, c CNAME) %s { %s }", errRes("PFXB"), ret("0"))}},
+			ConvLines:  []string{"extend PFXExt"},
+			Custom:     map[string]string{"PFXA→PFXB": "PFXExt"},
 			OnlyStruct: true,
 		},
 		{
-			Name:      "extend_conv_middle",
-			Shape:     shape{Src: "PFXA", Tgt: "PFXB", Name: "extconvmid", Decls: []string{base + "type PFXCtx struct{ Z int }\n" + fmt.Sprintf("func PFXExt(a PFXA, c CNAME, ctxA PFXCtx) %s { %s }", errRes("PFXB"), ret("0"))}},
-			ConvLines: []string{"arg:context:regex ^ctx", "extend PFXExt"},
-			Custom:    map[string]string{"PFXA→PFXB": "PFXExt"},
-			CtxParam:  "ctxA PFXCtx",
+			Name:       "extend_conv_middle",
+			Shape:      shape{Src: "PFXA", Tgt: "PFXB", Name: "extconvmid", Decls: []string{base + "type PFXCtx struct{ Z int }\n" + fmt.Sprintf("func PFXExt(a PFXA, c CNAME, ctxA PFXCtx) %s { %s }", errRes("PFXB"), ret("0"))}},
+			ConvLines:  []string{"arg:context:regex ^ctx", "extend PFXExt"},
+			Custom:     map[string]string{"PFXA→PFXB": "PFXExt"},
+			CtxParam:   "ctxA PFXCtx",
 			OnlyStruct: true,
 		},
 		{
@@ -94,18 +95,18 @@ func customLeaves(fallible bool) []customLeaf {
 		},
 		{
 			// regex-selected functions whose context is declared by doc comment; a second function matches the pattern
-			Name:      "extend_regex_doc_ctx",
-			Shape:     shape{Src: "PFXA", Tgt: "PFXB", Name: "extrectx", Decls: []string{base + "type PFXTab struct{ Z int }\n" + fmt.Sprintf("// goverter:context table\nfunc PFXResolveA(a PFXA, table PFXTab) %s { %s }\nfunc PFXResolveOther(a bool) %s { %s }", errRes("PFXB"), ret("0"), errRes("bool"), ret("false"))}},
-			ConvLines: []string{"extend PFXResolve.*"},
-			Custom:    map[string]string{"PFXA→PFXB": "PFXResolveA", "bool→bool": "PFXResolveOther"},
-			CtxParam:  "ctxT PFXTab",
+			Name:        "extend_regex_doc_ctx",
+			Shape:       shape{Src: "PFXA", Tgt: "PFXB", Name: "extrectx", Decls: []string{base + "type PFXTab struct{ Z int }\n" + fmt.Sprintf("// goverter:context table\nfunc PFXResolveA(a PFXA, table PFXTab) %s { %s }\nfunc PFXResolveOther(a bool) %s { %s }", errRes("PFXB"), ret("0"), errRes("bool"), ret("false"))}},
+			ConvLines:   []string{"extend PFXResolve.*"},
+			Custom:      map[string]string{"PFXA→PFXB": "PFXResolveA", "bool→bool": "PFXResolveOther"},
+			CtxParam:    "ctxT PFXTab",
 			MethodLines: []string{"context ctxT"},
 		},
 		{
-			Name:        "extend_underlying",
-			Shape:       shape{Src: "PFXA", Tgt: "PFXS", Name: "extund", Decls: []string{"type PFXA int\ntype PFXS string\n" + fmt.Sprintf("func PFXExt(a int) %s { %s }", errRes("string"), ret(`""`))}},
-			ConvLines:   []string{"extend PFXExt", "useUnderlyingTypeMethods"},
-			Custom:      map[string]string{"PFXA→PFXS": "PFXExt", "int→string": "PFXExt"},
+			Name:      "extend_underlying",
+			Shape:     shape{Src: "PFXA", Tgt: "PFXS", Name: "extund", Decls: []string{"type PFXA int\ntype PFXS string\n" + fmt.Sprintf("func PFXExt(a int) %s { %s }", errRes("string"), ret(`""`))}},
+			ConvLines: []string{"extend PFXExt", "useUnderlyingTypeMethods"},
+			Custom:    map[string]string{"PFXA→PFXS": "PFXExt", "int→string": "PFXExt"},
 		},
 		{
 			Name:      "extend_same_basic",
@@ -171,17 +172,17 @@ func customConv(family string, cl customLeaf, s shape, format string, n int, wra
 		format = "struct"
 	}
 	cv := &Conv{
-		ID:        fmt.Sprintf("%s/%s/%s/%s%s", family, cl.Name, s.Name, format, wrap),
-		Family:    family,
-		Format:    format,
-		Params:    params,
-		Results:   res,
-		Decls:     strings.Join(s.Decls, "\n"),
-		ConvLines: append(append([]string{}, cl.ConvLines...), s.ConvLines...),
+		ID:          fmt.Sprintf("%s/%s/%s/%s%s", family, cl.Name, s.Name, format, wrap),
+		Family:      family,
+		Format:      format,
+		Params:      params,
+		Results:     res,
+		Decls:       strings.Join(s.Decls, "\n"),
+		ConvLines:   append(append([]string{}, cl.ConvLines...), s.ConvLines...),
 		MethodLines: append([]string{}, cl.MethodLines...),
-		Spec:      spec,
-		Aux:       cl.Aux,
-		Imports:   cl.Imports,
+		Spec:        spec,
+		Aux:         cl.Aux,
+		Imports:     cl.Imports,
 	}
 	if s.NeedZero {
 		cv.ConvLines = append(cv.ConvLines, "useZeroValueOnPointerInconsistency")
@@ -268,6 +269,27 @@ func nestings(g *shapeGen, leaf shape, thorough bool) []shape {
 	return out
 }
 
+// randomNestings: seeded random compositions (depth 2..4) of the extended constructor set around a custom leaf;
+// comparable leaves may additionally sit at a map-key position.
+func randomNestings(g *shapeGen, leaf shape, rng *rand.Rand, count int) []shape {
+	var out []shape
+	seen := map[string]bool{}
+	for tries := 0; len(out) < count && tries < count*4; tries++ {
+		s := leaf
+		if !strings.Contains(leaf.Src, "PFXIn") && rng.Intn(5) == 0 {
+			s = wrap(s, "keyof", "map["+s.Src+"]int", "map["+s.Tgt+"]int")
+		}
+		s = randomShape(g, rng, s, 2+rng.Intn(3))
+		// (array -> slice at an assignment position is the known C02 defect: not this family's subject)
+		if seen[s.Name] || strings.Count(s.Name, "rec") > 1 || strings.Contains(s.Name, "arr_") {
+			continue
+		}
+		seen[s.Name] = true
+		out = append(out, s)
+	}
+	return out
+}
+
 // FamilyCustom: F-custom (C06, C14 routing).
 func FamilyCustom(thorough bool) []*Conv {
 	var out []*Conv
@@ -281,6 +303,24 @@ func FamilyCustom(thorough bool) []*Conv {
 			}
 			n++
 			out = append(out, customConv("custom", cl, s, formats[n%3], n, ""))
+		}
+	}
+	// seeded random nestings
+	rng := rand.New(rand.NewSource(Seed*104729 + 3))
+	per := 3
+	if thorough {
+		per = 25
+	}
+	for _, cl := range customLeaves(false) {
+		if strings.HasPrefix(cl.Shape.Src, "*") || cl.SkipCopy {
+			continue
+		}
+		for _, s := range randomNestings(g, cl.Shape, rng, per) {
+			n++
+			cv := customConv("custom", cl, s, formats[n%3], n, "")
+			cv.ID = strings.Replace(cv.ID, "custom/"+cl.Name+"/", "custom/"+cl.Name+"/rnd_", 1)
+			cv.Bounds = &Bounds{MaxSlice: 1, MaxMap: 1, RecDepth: 1}
+			out = append(out, cv)
 		}
 	}
 	out = append(out, fieldFuncConvs("custom", false)...)
@@ -306,6 +346,26 @@ func FamilyError(thorough bool) []*Conv {
 			for _, wrap := range []string{"", "_wrap", "_using"} {
 				n++
 				out = append(out, customConv("error", cl, s, formats[n%3], n, wrap))
+			}
+		}
+	}
+	// seeded random nestings
+	rng := rand.New(rand.NewSource(Seed*1299709 + 5))
+	per := 2
+	if thorough {
+		per = 15
+	}
+	for li, cl := range leaves {
+		if strings.HasPrefix(cl.Shape.Src, "*") || cl.SkipCopy || (!thorough && li > 2 && cl.Name != "extend_struct") {
+			continue
+		}
+		for _, s := range randomNestings(g, cl.Shape, rng, per) {
+			for _, wrap := range []string{"", "_wrap", "_using"} {
+				n++
+				cv := customConv("error", cl, s, formats[n%3], n, wrap)
+				cv.ID = strings.Replace(cv.ID, "error/"+cl.Name+"/", "error/"+cl.Name+"/rnd_", 1)
+				cv.Bounds = &Bounds{MaxSlice: 1, MaxMap: 1, RecDepth: 1}
+				out = append(out, cv)
 			}
 		}
 	}
@@ -450,8 +510,8 @@ func fieldFuncConvs(family string, fallible bool) []*Conv {
 			ID: family + "/fieldfunc/selfptr/" + f, Family: family, Format: f,
 			Params: "source *PFXEmp", Results: cres, Decls: selfDecl,
 			MethodLines: []string{"map Manager ManagerName | PFXNameOf"},
-			Spec: &Spec{Pairs: map[string]*PairSpec{"PFXEmp→PFXCard": {Fields: map[string]*FieldSpec{"ManagerName": {Path: []string{"Manager"}, Fn: "PFXNameOf"}}}}},
-			Bounds: &Bounds{MaxSlice: 1, MaxMap: 1, RecDepth: 2},
+			Spec:        &Spec{Pairs: map[string]*PairSpec{"PFXEmp→PFXCard": {Fields: map[string]*FieldSpec{"ManagerName": {Path: []string{"Manager"}, Fn: "PFXNameOf"}}}}},
+			Bounds:      &Bounds{MaxSlice: 1, MaxMap: 1, RecDepth: 2},
 		})
 	}
 	// map ... | FUNC whose extra parameter is a context only through a *method-level* arg:context:regex
